@@ -982,6 +982,34 @@ __attribute__((noinline)) void check_conversions(env_t<T>& e, const ref_t& r, te
     }
     // nothing of the above changed the source
     report("source-unchanged", holds_codes(e, cmap, r.size) && holds_codes(e, m1, r.size));
+
+    // aliasing conversions: an owning tensor assigned a (mutable or constant) first-axis view of ITSELF keeps exactly
+    // the rows [b, e) - the library does this itself (`m = m.slice(0, n)`); the view aliases the destination's buffer
+    if (r.dims[0] >= 1)
+    {
+        const auto d0 = r.dims[0];
+        const auto st = r.stride[0];
+        const auto b  = static_cast<tensor_size_t>(e.c.rng.integer(0, d0 - 1));
+        const auto en = static_cast<tensor_size_t>(e.c.rng.integer(b + 1, d0));
+        const auto rows_ok = [&](const tensor_mem_t<T, R>& t)
+        {
+            bool ok = t.size() == (en - b) * st && t.template size<0>() == en - b;
+            for (tensor_size_t k = 0; ok && k < t.size(); ++k)
+            {
+                ok = t.data()[k] == e.val(b * st + k);
+            }
+            return ok;
+        };
+        tensor_mem_t<T, R> s1 = map;
+        s1                    = s1.slice(b, en);
+        report("mem=own-slice(map)", rows_ok(s1));
+        tensor_mem_t<T, R> s2 = map;
+        s2                    = std::as_const(s2).slice(b, en);
+        report("mem=own-slice(cmap)", rows_ok(s2));
+        tensor_mem_t<T, R> s3 = map;
+        s3                    = s3.tensor();
+        report("mem=own-tensor()", dims_ok(s3) && holds_codes(e, s3, r.size));
+    }
 }
 
 // ------------------------------------------------------------------------------------------------------------------
